@@ -107,7 +107,12 @@ def check_des_master(ctx, case):
     sched = DR.split_keys(bytes(key))
     ct = np.array(DR.crypt(list(map(int, pt)), sched, 'encrypt'), dtype='uint8')
     rk = np.array(DR.schedule_words(bytes(key))[r], dtype='uint8')
-    got = must(case, 'des.get_master_key(round=%d)' % r, des.get_master_key, rk, r, pt, ct)
+    # byte values in any integer dtype (an array built from Python ints is int64): round key, plaintext and ciphertext each get one from the case digest
+    from vlib.core import digest
+    dts = ['uint8', 'uint8', 'int64', 'uint16', 'int32']
+    dg = digest(case)
+    rk, pt_a, ct = rk.astype(dts[dg[1] % 5]), np.asarray(pt).astype(dts[dg[2] % 5]), ct.astype(dts[dg[3] % 5])
+    got = must(case, 'des.get_master_key(round=%d, dtypes %s/%s/%s)' % (r, rk.dtype, pt_a.dtype, ct.dtype), des.get_master_key, rk, r, pt_a, ct)
     if got is None:
         raise Violation('des.get_master_key(round=%d) found no key' % r, case)
     got = np.asarray(got)
